@@ -306,6 +306,8 @@ def rel_gate(v):
         res = lattice.analyse(build.REPO)
         bad = [r for r in res['results'] if not r['holds']]
         if bad: confirmed = True; notes.append('; '.join(f"{r['obligation']}: {r['counterexample']}" for r in bad[:3]))
+    elif rel == 'ub':
+        return 'unconfirmable', {'native': {}, 'notes': ['out-of-allocation access / failed debug assertion inside a scanner, found on the real MIR with an exact-size buffer allocation; standard-level UB that no native run reliably confirms (triage by reading the MIR location)']}
     elif rel == 'cell':
         return 'unconfirmable', {'native': {}, 'notes': ['runtime-feature cell invariant: a statement over all CPUs and interleavings; this host has one CPU kind']}
     elif rel == 'completable':
